@@ -410,7 +410,12 @@ class _Parser:
             inc_path = os.path.join(inc_dir, yaml_path)
 
             # real path (symbolic links resolved)
-            real_path = os.path.realpath(inc_path)
+            try:
+                real_path = os.path.realpath(inc_path)
+            except ValueError:
+                # not a valid path (embedded null character): no
+                # such file
+                continue
 
             # normalized path (weird stuff removed!)
             norm_path = os.path.normpath(real_path)
